@@ -1153,6 +1153,10 @@ where
         {
             let sc = self.size_ctl.load(Ordering::SeqCst);
             if sc >= 0
+                // the resize we were asked to help with may have finished and a resize of the
+                // _next_ generation may have started since we read `table` and `next_table`;
+                // joining that one with the old tables would corrupt its helper count
+                || (sc as usize >> RESIZE_STAMP_SHIFT) != (rs as usize >> RESIZE_STAMP_SHIFT)
                 || sc == rs + MAX_RESIZERS
                 || sc == rs + 1
                 || self.transfer_index.load(Ordering::SeqCst) <= 0
